@@ -6264,4 +6264,45 @@ theorem ops_table_eq_source' :
     Coba.Generated.C17.noBisectOps = [Op.sym .mtch] ∧
     Coba.Generated.C17.compareTable = opTable := by decide
 
+
+/-! ## Phase 4 (continued): Python's `<` on the cell domain — comparable classes -/
+
+/-- **mixed-class TypeError, exactly**: `a < b` raises iff neither side is `Missing` and the two are not both
+numbers or both strings -/
+theorem pyLt_raises_iff' (a b : Cell) :
+    pyLt a b = .error .typeError ↔
+      (a.key ≠ .missing ∧ b.key ≠ .missing ∧ ¬ (a.key.rank = b.key.rank ∧ a.key.rank ≤ 1)) := by
+  unfold pyLt
+  cases ha : a.key <;> cases hb : b.key <;> simp [Key.comparable, Key.rank]
+
+/-- on one comparable class `<` is a strict total preorder up to `==`: irreflexive, transitive, and two cells
+neither of which is smaller than the other are `==` (same key) -/
+theorem pyLt_class_order' (a b c : Cell) (hab : a.key.rank = b.key.rank) (hbc : b.key.rank = c.key.rank) (hcl : a.key.rank ≤ 1) :
+    pyLt a a = .ok false ∧
+    (pyLt a b = .ok true → pyLt b c = .ok true → pyLt a c = .ok true) ∧
+    (pyLt a b = .ok false → pyLt b a = .ok false → pyEq a b = true) ∧
+    (∃ r, pyLt a b = .ok r) := by
+  have hb1 : b.key.rank ≤ 1 := hab ▸ hcl
+  have hc1 : c.key.rank ≤ 1 := hbc ▸ hb1
+  have cmp : ∀ x y : Cell, x.key.rank = y.key.rank → x.key.rank ≤ 1 → x.key.comparable y.key = true := by
+    intro x y h1 h2
+    cases hx : x.key <;> cases hy : y.key <;> simp_all [Key.comparable, Key.rank]
+  have caa := cmp a a rfl hcl
+  have cab := cmp a b hab hcl
+  have cba := cmp b a hab.symm hb1
+  have cbc := cmp b c hbc hb1
+  have cac := cmp a c (hab.trans hbc) hcl
+  simp only [pyLt, caa, cab, cba, cbc, cac, if_true]
+  refine ⟨by simp [Key.lt_irrefl], ?_, ?_, ⟨_, rfl⟩⟩
+  · intro h1 h2
+    simp only [Except.ok.injEq] at h1 h2 ⊢
+    exact Key.lt_trans _ _ _ h1 h2
+  · intro h1 h2
+    simp only [Except.ok.injEq] at h1 h2
+    have := Key.lt_connected _ _ h1 h2
+    unfold pyEq
+    rw [this]
+    generalize b.key = k
+    cases k <;> simp
+
 end Coba.C17
